@@ -136,6 +136,7 @@ class _CT:
 class _MemArr:
     def __init__(self, mem):
         self.ctypes = _CT(Addr(mem, 0))
+        self.nbytes = self.size = 2**62  # "covers the whole storage" (a storage has no length of its own in the model)
 
 
 class SymFFI:
@@ -238,14 +239,19 @@ class Caller:
     def __init__(self, env, omp):
         self.env, self.omp = env, omp
         self.ks = kernels()
+        self.kerns = {}  # one KernelCpu per kernel name for the whole scenario, as a context keeps them (M11-C17: what a
+        # kernel object remembers from an earlier call must not outlive a growth of the buffer)
         if not env.symbolic:
             self.ctx = compiled("c", omp)
 
     def call(self, name, ret=None, positional=(), **kwargs):
         desc = self.ks[name][0]
         if self.env.symbolic:
-            rec = Recorder(desc, ret)
-            kern = KernelCpu(function=rec, description=desc, ffi_interface=SymFFI(), context=CtxStub(self.omp))
+            if name not in self.kerns:
+                rec = Recorder(desc, ret)
+                self.kerns[name] = (rec, KernelCpu(function=rec, description=desc, ffi_interface=SymFFI(), context=CtxStub(self.omp)))
+            rec, kern = self.kerns[name]
+            rec.ret = ret
             out = KernelDispatcher(name, {name: kern})(*positional, **kwargs)
             return out, (rec.calls[-1] if rec.calls else None), kern
         out = getattr(self.ctx.kernels, name)(*positional, **kwargs)
@@ -325,6 +331,21 @@ def _sc_c17(env, group, cfg, ty, vals):
                     env.check(out == 123, "C17 the declared return value comes back unchanged")
                 else:
                     env.check(int(out) == int(o._offset), f"C17 xobject argument {tag}: the kernel receives the address of the object's first byte (base + offset)")
+        # the same kernels again after the buffer has grown under the objects (M11-C17): the pointer is into the storage the
+        # buffer has NOW; the objects were written from Python in between, a kernel that writes must reach them
+        if env.symbolic:
+            buf.grow(env.int("g2nd", 1, 2**40))
+        else:
+            buf.grow(4096)
+        objs["KP"].a = 77
+        for n in ("KQ", "KP", "KA", "KM", "KH"):
+            o = objs[n]
+            out, args, _ = call.call("off_" + n, ret=124, obj=o, base=base())
+            if env.symbolic:
+                points_to(args[0], ty[n]._c_type, o._buffer, o._offset, f"C17 xobject argument {n}, second call after the buffer has grown")
+            else:
+                env.check(int(out) == int(o._offset), f"C17 xobject argument {n}, second call after the buffer has grown: the kernel receives the address of the object's first byte in the buffer's current storage")
+        env.check(int(objs["KP"].a) == 77, "C17 kernel calls do not change the objects they are given")
         # duplicates made by pickling (own buffer, own storage): the pointer is into the DUPLICATE's storage (M10-C07)
         try:
             dups = env.pickle_roundtrip([objs["KQ"], objs["KP"]])
